@@ -252,6 +252,44 @@ Fixpoint var_xpath_process (mapping : list (bool * xkind)) : outcome unit :=
 Definition var_jsonpath_process (json_ok : bool) (paths_ok : list bool) : outcome unit :=
   if negb json_ok then Failed else if forallb (fun b => b) paths_ok then Done tt else Failed.
 
+(* ---------- variables taken from earlier responses, indexed by later steps (lib/mp GetMapValue / calcIndex) ---------- *)
+Inductive index_spec := INum (i : Z) | INext | IRand | ILast | IBad.
+
+(* Go: a % b panics for b = 0 (truncated remainder otherwise); rand.Intn(n) panics for n <= 0; v[i] panics out of range *)
+Definition go_rem (a b : Z) : outcome Z := if b =? 0 then Panicked else Done (Z.rem a b).
+Definition go_intn (n r : Z) : outcome Z := if n <=? 0 then Panicked else Done (r mod n).
+Definition go_elem (i len : Z) : outcome unit := if (0 <=? i) && (i <? len) then Done tt else Panicked.
+
+(* calcIndex(indexStr, segment, length, iter): [counter] = what iter.Next returns, [rnd] = the random source's draw *)
+Definition calc_index (ix : index_spec) (len counter rnd : Z) : outcome Z :=
+  if len =? 0 then Failed
+  else match ix with
+       | IBad => Failed
+       | INum i =>
+           if (0 <=? i) && (i <? len) then Done i
+           else match go_rem i len with
+                | Done m => Done (if m <? 0 then m + len else m)
+                | Failed => Failed
+                | Panicked => Panicked
+                end
+       | ILast => Done (len - 1)
+       | IRand => go_intn len rnd
+       | INext => if counter >=? len then go_rem counter len else Done counter
+       end.
+
+(* extractFromSlice: index computed, then v[index] *)
+Definition extract_elem (ix : index_spec) (len counter rnd : Z) : outcome unit :=
+  match calc_index ix len counter rnd with
+  | Done i => go_elem i len
+  | Failed => Failed
+  | Panicked => Panicked
+  end.
+
+(* a step's preprocessor: nothing, or a mapping entry indexing a list (of that length) an earlier step extracted *)
+Inductive pre_cfg := PreNone | PreIndex (ix : index_spec) (len counter rnd : Z).
+Definition pre_eval (p : pre_cfg) : outcome unit :=
+  match p with PreNone => Done tt | PreIndex ix len c r => extract_elem ix len c r end.
+
 (* a configured postprocessor together with what it sees of the response *)
 Inductive pp_cfg :=
 | PPHeader (mapping : list (list mod_spec * bstr))      (* modifier chain, value of the header *)
@@ -342,7 +380,7 @@ Definition base_shoot (c : base_cfg) (invalid_ammo : bool) (r : response) : shot
 (* one scenario step as the gun sees it *)
 Record step_in := {
   si_opts : gun_opts;             (* options of the gun (the same for every step of a run) *)
-  si_pre_ok : bool;               (* preprocessor *)
+  si_pre : outcome unit;          (* preprocessor *)
   si_tmpl_ok : bool;              (* templater.Apply *)
   si_prep_ok : bool;              (* prepareRequest *)
   si_resp : response;
@@ -360,7 +398,8 @@ Fixpoint run_pps (pps : list (outcome unit)) : outcome unit :=
 
 (* ScenarioGun.shootStep *)
 Definition shoot_step (s : step_in) : step_out :=
-  if negb (si_pre_ok s) then StepErr
+  if is_panic (si_pre s) then StepPanic
+  else if negb (match si_pre s with Done _ => true | _ => false end) then StepErr
   else if negb (si_tmpl_ok s) then StepErr
   else if negb (si_prep_ok s) then StepErr
   else if is_panic (side_branches (si_opts s) (si_resp s)) then StepPanic
